@@ -328,13 +328,18 @@ Proof.
     rewrite map_length in Hlen. lia.
 Qed.
 
+(* what must follow an element in memory for the unbounded length function to
+   delimit it: nothing for a message (it is self-delimiting, whatever follows),
+   a zero word for a bundle (the API's precondition for nested bundles) *)
+Definition elem_tail (e : elem) : list byte := match e with Msg _ => [] | Bun _ _ => z4 end.
+
 Theorem message_length_elem e rest :
   elem_wf e ->
-  message_length (elem_bytes e ++ z4 ++ rest) SIZE_MAX = Ok (zlen (elem_bytes e)).
+  message_length (elem_bytes e ++ elem_tail e ++ rest) SIZE_MAX = Ok (zlen (elem_bytes e)).
 Proof.
   intros H. inversion H as [a tags args WF NB Hsz | ttag es Ht Hes Hsz]; subst.
-  - cbn [elem_bytes]. apply message_length_enc; [assumption | assumption | unfold W32; lia | unfold SIZE_MAX; lia].
-  - apply message_length_bun; [apply elems_blk; assumption | assumption |].
+  - cbn [elem_bytes elem_tail app]. apply message_length_enc; [assumption | assumption | unfold W32; lia | unfold SIZE_MAX; lia].
+  - cbn [elem_tail]. apply message_length_bun; [apply elems_blk; assumption | assumption |].
     right. split; [unfold SIZE_MAX; lia | eexists; reflexivity].
 Qed.
 
@@ -350,8 +355,9 @@ Proof.
 Qed.
 
 (* ---- rtosc_bundle -------------------------------------------------------------------- *)
-(* the memory each element pointer designates: the element, a zero word, anything *)
-Definition elem_mem (e : elem) (junk : list byte) : list byte := elem_bytes e ++ z4 ++ junk.
+(* the memory each element pointer designates: the element, a zero word if it
+   is a bundle, then anything *)
+Definition elem_mem (e : elem) (junk : list byte) : list byte := elem_bytes e ++ elem_tail e ++ junk.
 
 Lemma bundle_sizes_elems es junks :
   Forall elem_wf es -> length junks = length es ->
@@ -361,7 +367,7 @@ Proof.
   intros H. revert junks. induction H as [|e es He Hes IH]; intros junks Hl.
   - destruct junks; [reflexivity | discriminate].
   - destruct junks as [|j junks]; [discriminate|]. cbn [combine map bundle_sizes fst snd].
-    change (elem_mem e j) with (elem_bytes e ++ z4 ++ j). rewrite (message_length_elem e j He). cbn [bind].
+    change (elem_mem e j) with (elem_bytes e ++ elem_tail e ++ j). rewrite (message_length_elem e j He). cbn [bind].
     rewrite IH by (cbn in Hl; lia). reflexivity.
 Qed.
 
@@ -375,9 +381,9 @@ Proof.
   - destruct junks; [|discriminate]. exists []. repeat split.
   - destruct junks as [|j junks]; [discriminate|]. cbn [combine map bundle_chunks fst snd].
     destruct (IH junks ltac:(cbn in Hl; lia)) as (cs & Hcs & Hb & Hs).
-    change (elem_mem e j) with (elem_bytes e ++ z4 ++ j).
-    replace (zlen (elem_bytes e ++ z4 ++ j) <? zlen (elem_bytes e)) with false.
-    2:{ symmetry. apply Z.ltb_ge. rewrite zlen_app. pose proof (zlen_nonneg (z4 ++ j)). lia. }
+    change (elem_mem e j) with (elem_bytes e ++ elem_tail e ++ j).
+    replace (zlen (elem_bytes e ++ elem_tail e ++ j) <? zlen (elem_bytes e)) with false.
+    2:{ symmetry. apply Z.ltb_ge. rewrite zlen_app. pose proof (zlen_nonneg (elem_tail e ++ j)). lia. }
     rewrite Hcs. cbn [bind]. eexists. split; [reflexivity|]. split.
     + cbn [chunk_bytes]. rewrite Hb, body_cons. f_equal. f_equal.
       unfold zlen. rewrite Nat2Z.id. apply firstn_zlen_app.
@@ -462,14 +468,40 @@ Proof.
 Qed.
 
 (* a message is never mistaken for a bundle *)
+Lemma strcmp_addr a rest :
+  nonul a -> a <> [] -> not_bundle_addr a -> strcmp_eq (a ++ 0 :: rest) bundle_magic = Ok false.
+Proof.
+  intros Hn Hne NB. unfold bundle_magic, not_bundle_addr, bundle7 in *.
+  assert (Hz : forall c (l : list byte), nonul (c :: l) -> (c =? 0) = false)
+    by (intros c l H; inversion H; subst; apply Z.eqb_neq; assumption).
+  assert (Ht : forall c (l : list byte), nonul (c :: l) -> nonul l)
+    by (intros c l H; inversion H; assumption).
+  destruct a as [|a0 a]; [congruence|]. cbn [app strcmp_eq].
+  destruct (Z.eqb_spec a0 35) as [->|]; [|reflexivity]. change (35 =? 0) with false. cbv iota. apply Ht in Hn.
+  destruct a as [|a1 a]; [reflexivity|]. cbn [app strcmp_eq].
+  destruct (Z.eqb_spec a1 98) as [->|]; [|reflexivity]. change (98 =? 0) with false. cbv iota. apply Ht in Hn.
+  destruct a as [|a2 a]; [reflexivity|]. cbn [app strcmp_eq].
+  destruct (Z.eqb_spec a2 117) as [->|]; [|reflexivity]. change (117 =? 0) with false. cbv iota. apply Ht in Hn.
+  destruct a as [|a3 a]; [reflexivity|]. cbn [app strcmp_eq].
+  destruct (Z.eqb_spec a3 110) as [->|]; [|reflexivity]. change (110 =? 0) with false. cbv iota. apply Ht in Hn.
+  destruct a as [|a4 a]; [reflexivity|]. cbn [app strcmp_eq].
+  destruct (Z.eqb_spec a4 100) as [->|]; [|reflexivity]. change (100 =? 0) with false. cbv iota. apply Ht in Hn.
+  destruct a as [|a5 a]; [reflexivity|]. cbn [app strcmp_eq].
+  destruct (Z.eqb_spec a5 108) as [->|]; [|reflexivity]. change (108 =? 0) with false. cbv iota. apply Ht in Hn.
+  destruct a as [|a6 a]; [reflexivity|]. cbn [app strcmp_eq].
+  destruct (Z.eqb_spec a6 101) as [->|]; [|reflexivity]. change (101 =? 0) with false. cbv iota. apply Ht in Hn.
+  destruct a as [|a7 a]; [exfalso; apply NB; reflexivity|]. cbn [app strcmp_eq].
+  rewrite (Hz a7 a Hn). reflexivity.
+Qed.
+
 Theorem message_not_bundle a tags args rest :
   msg_wf a tags args -> not_bundle_addr a ->
   bundle_p (enc_spec a tags args ++ rest) = Ok false.
 Proof.
-  intros WF NB. destruct WF as [Hne _ _ _ _].
-  destruct a as [|a0 a']; [congruence|]. unfold not_bundle_addr in NB. cbn [hd] in NB.
-  unfold enc_spec, pad4z. cbn [app]. unfold bundle_p, bundle_magic. cbn [strcmp_eq app].
-  replace (a0 =? 35) with false by (symmetry; apply Z.eqb_neq; assumption). reflexivity.
+  intros WF NB. destruct WF as [Hne Ha _ _ _].
+  unfold enc_spec, pad4z, bundle_p. rewrite <- !app_assoc.
+  assert (Hk : 1 <= 4 - zlen a mod 4) by (pose proof (Z.mod_pos_bound (zlen a) 4 ltac:(lia)); lia).
+  rewrite (zeros_pos _ Hk). cbn [app]. apply strcmp_addr; assumption.
 Qed.
 
 (* ---- subtree_serialize (src/cpp/subtree-serialize.cpp) ------------------- *)
